@@ -5,7 +5,7 @@ configuration; every linter command is run on it (click's CliRunner in-process =
 through a real subprocess).  The analysis oracle of the Coq model (what each rule finds in the content when
 it is analysed as language L) is taken from unfiltered reference runs of the orchestrator on canonically
 named copies (`.py/.ts/.js/.rs`) under the base configuration; the commands run on the variant names under a
-configuration whose OTHER sections were perturbed.  Judging happens inside Coq (Model/DispatchRun.v: judge).
+configuration whose OTHER sections were perturbed (valid settings only; rejected values are C05's domain).  Judging happens inside Coq (Model/DispatchRun.v: judge).
 """
 from __future__ import annotations
 
@@ -19,7 +19,7 @@ from harness.common import REPO, VERIF, pool_map, rng_for, run_cli, scratch_dir
 from harness.framework import Check
 
 PROP = "C15"
-FLAGS = ["q_shebang_any_ext", "q_foreign_reject_aborts"]
+FLAGS = ["q_shebang_any_ext"]
 HEADER = "From TL Require Import Lib.Base Model.DispatchTypes Gen.DispatchGen Model.Dispatch Model.DispatchRun Actual.DispatchActual.\n"
 LANG_EXT = {"python": ".py", "typescript": ".ts", "javascript": ".js", "rust": ".rs"}
 ALL_LANGS = ["python", "typescript", "javascript", "rust", "java", "go", "unknown"]
@@ -142,14 +142,14 @@ VALID = {
     "lbyl": [{"detect_dict_key": True}],
     "cqs": [{"min_operations": 1}],
 }
-OTHER = {  # further settings used only to perturb OTHER linters' sections
-    "nesting": [{"enabled": False}, {"max_nesting_depth": 0}, {"python": {"max_nesting_depth": 0}}, {"max_nesting_depth": "deep"}, {"max_nesting_depth": 9}],
-    "srp": [{"enabled": False}, {"max_methods": 0}, {"max_loc": -5}, {"max_methods": 1}],
-    "magic_numbers": [{"enabled": False}, {"max_small_integer": 0}, {"allowed_numbers": []}],
-    "dry": [{"enabled": False}, {"enabled": True, "min_duplicate_lines": 0}, {"min_occurrences": -1}, {"enabled": True, "storage_mode": "disk"}],
-    "stringly_typed": [{"enabled": False}, {"min_occurrences": 0}, {"min_values_for_enum": 1}],
-    "collection_pipeline": [{"enabled": False}, {"min_continues": 0}],
-    "file_placement": [{"global_deny": [{"pattern": "([", "reason": "broken"}]}, {"directories": {"src": {"allow": [".*\\.py$"]}}}],
+OTHER = {  # further VALID settings used only to perturb OTHER linters' sections (C15's domain: every section valid)
+    "nesting": [{"enabled": False}, {"max_nesting_depth": 9}, {"max_nesting_depth": 1, "typescript": {"max_nesting_depth": 6}}],
+    "srp": [{"enabled": False}, {"max_methods": 1}, {"max_loc": 5}],
+    "magic_numbers": [{"enabled": False}, {"allowed_numbers": []}, {"max_small_integer": 100}],
+    "dry": [{"enabled": False}, {"enabled": True, "min_duplicate_lines": 2, "min_occurrences": 3}, {"enabled": True, "detect_duplicate_constants": False}],
+    "stringly_typed": [{"enabled": False}, {"min_occurrences": 5}, {"min_values_for_enum": 2, "max_values_for_enum": 3}],
+    "collection_pipeline": [{"enabled": False}, {"min_continues": 3}],
+    "file_placement": [{"directories": {"src": {"allow": [".*\\.py$"]}}}, {"global_deny": [{"pattern": ".*", "reason": "everything"}]}],
     "print_statements": [{"enabled": False}],
     "performance": [{"enabled": False}],
     "lbyl": [{"enabled": False}],
@@ -162,11 +162,14 @@ OTHER = {  # further settings used only to perturb OTHER linters' sections
     "blocking_async": [{"enabled": False}],
     "lazy_ignores": [{"enabled": False}],
 }
-
-
-def _rejectable(sec) -> bool:
-    txt = json.dumps(sec)
-    return any(x in txt for x in (": 0", ": -", '"(["', '"disk"', '"min_values_for_enum": 1'))
+# OUT OF C15's DOMAIN (property C05 demands exit code 2 for values a linter rejects): a small deterministic stream whose
+# only oracle is "the run ends with an error, no violations printed"; it never influences the C15 verdict
+OUT_OF_DOMAIN = [
+    ("py", ".py", {"srp": {"max_methods": 0}}, ["nesting", "lbyl"]),
+    ("ts", ".ts", {"nesting": {"max_nesting_depth": 0}}, ["srp", "perf"]),
+    ("rs", ".rs", {"dry": {"enabled": True, "min_occurrences": -1}}, ["unwrap-abuse"]),
+    ("py", ".PY", {"file_placement": {"global_deny": [{"pattern": "([", "reason": "broken"}]}}, ["magic-numbers"]),
+]
 
 
 def make_configs(r):
@@ -180,8 +183,6 @@ def make_configs(r):
     touched = r.sample(sorted(OTHER), r.choice([0, 1, 1, 2, 2, 3, 5]))
     for pkg in touched:
         pert[pkg] = r.choice(OTHER[pkg] + VALID.get(pkg, []))
-        if r.random() < 0.55 and _rejectable(pert[pkg]):
-            pert[pkg] = r.choice(VALID.get(pkg) or [{"enabled": False}])
     return base, pert, sorted(touched)
 
 
@@ -209,6 +210,46 @@ def gen_groups(seed: int, n: int):
         groups.append({"i": i, "kind": kind, "stem": r.choice(STEMS), "ext": ext, "data_hex": data.hex(),
                        "base": base, "pert": pert, "touched": touched, "subprocess_cmds": []})
     return groups
+
+
+def _fixed_content(kind: str) -> str:
+    pick = {"py": ["deep", "lbyl", "helper", "pipe", "loops"], "ts": ["deep", "loops", "big", "cqs"], "rs": ["deep", "unwrap", "clone", "async"]}[kind]
+    return PRELUDE[kind] + "".join(BLOCKS[kind][b].format(n=i, k1=4242, k2=6161) + "\n\n" for i, b in enumerate(pick))
+
+
+def grid_groups(cmds_all):
+    """deterministic part of every run: (a) every first-line variant on an extensionless / trailing-dot name,
+    (b) every mapped extension in lower and upper case with content of its own and of another language;
+    the commands rotate so that the grid covers all of them"""
+    out, k = [], 0
+
+    def add(kind, stem, ext, text, n_cmds=3):
+        nonlocal k
+        cmds = [cmds_all[(k * n_cmds + j) % len(cmds_all)] for j in range(n_cmds)]
+        k += 1
+        out.append({"i": f"grid:{len(out)}", "kind": kind, "stem": stem, "ext": ext, "data_hex": text.encode().hex(), "base": {}, "pert": {},
+                    "touched": [], "fixed_cmds": sorted(set(cmds + (["nesting", "lbyl"] if kind == "py" and len(out) % 2 else []))), "subprocess_cmds": []})
+    seen = []
+    for head in HEADS:
+        if head in seen:
+            continue
+        seen.append(head)
+        add("py", "tool", "" if len(seen) % 3 else ".", head + _fixed_content("py"))
+    own = {".py": "py", ".js": "ts", ".ts": "ts", ".tsx": "ts", ".jsx": "ts", ".rs": "rs", ".java": "py", ".go": "rs"}
+    other = {"py": "rs", "ts": "py", "rs": "ts"}
+    for ext in EXT_MAPPED:
+        for variant in (ext, ext.upper()):
+            add(own[ext], "unit", variant, _fixed_content(own[ext]))
+            add(other[own[ext]], "unit", variant, _fixed_content(other[own[ext]]))
+    return out
+
+
+def ood_groups():
+    out = []
+    for n, (kind, ext, pert, cmds) in enumerate(OUT_OF_DOMAIN):
+        out.append({"i": f"out-of-domain:{n}", "ood": True, "kind": kind, "stem": "cfgerr", "ext": ext, "data_hex": _fixed_content(kind).encode().hex(),
+                    "base": {}, "pert": pert, "touched": sorted(pert), "fixed_cmds": cmds, "subprocess_cmds": []})
+    return out
 
 
 def corpus_groups():
@@ -587,14 +628,13 @@ def run(tier: str, seed: int, replay: str | None = None) -> int:
                 "trigger every linter of that language) is written under a file name of every mapped extension in lower/upper/mixed case, "
                 "of unmapped extensions, without extension, with and without a (python / other) shebang line, empty or undecodable; every "
                 "linter command (22 incl. perf --rule variants) runs on it through click under a configuration whose sections of OTHER "
-                "linters were perturbed (valid, disabling, wrongly typed and rejected values); expected output = findings of the command's "
+                "linters were perturbed (arbitrary VALID settings: other thresholds, disabling, per-language overrides, other path rules); expected output = findings of the command's "
                 "own rules in an unfiltered reference run on canonically named copies (.py/.ts/.js/.rs) under the unperturbed configuration. "
                 "A case (project, config, command) is non-trivial when the reference runs contain at least one finding of a rule the "
                 "command does not own (something could leak); distinct = distinct (content, file name, configuration, command)")
     chk.trusted_base += [
         "analysis oracle: what a rule reports inside a file of its own language is NOT modelled; it is taken from unfiltered reference runs of the real orchestrator on canonically named copies (the model decides which oracle entries a command may print)",
-        "config-class validation (which sections raise ValueError for which language) is an oracle: the harness calls the same config classes / PatternValidator",
-        "hand-modelled control flow: order of content test / config load / language guard in the rules' check() methods (Model/Dispatch.v stage_of), validated by correspondence on rejected sections",
+        "domain: configurations in which every section is valid (a value a linter rejects must end the run with exit code 2 by property C05); the harness confirms validity of every generated section with the real config classes / PatternValidator; a 4-case deterministic out-of-domain stream only records that such runs end with an error",
         "pathlib.PurePath.suffix and str.lower are modelled on bytes for ASCII names (leaf-level check against CPython every run); rule discovery (pkgutil/inspect) validated by comparing the generated rule table with the runtime registry",
     ]
     chk.build(["theories/Props/C15.v"], ["DispatchGen"], known_v=["theories/Props/C15Known.v"])
@@ -609,17 +649,20 @@ def run(tier: str, seed: int, replay: str | None = None) -> int:
         cmds_all, agnostic, pkg_of_rule = tables["cmds"], tables["agnostic"], tables["pkg"]
         if set(cmds_all) != set(CMD_OWNER):
             chk.broken.append(f"Spec:commands in the source {sorted(set(cmds_all) ^ set(CMD_OWNER))} differ from the documented command table")
-    n_groups = (64 if tier == "quick" else 640) * scale
+    if "error" not in tables:
+        chk.extra_cov["generated_tables"] = {"commands": len(cmds_all), "rule_classes": len(tables["rules"]),
+                                             "rules_by_guard": {r["rid"]: (r["langs"] if r["langs"] is not None else "every file") for r in tables["rules"]}}
+    n_groups = (48 if tier == "quick" else 300) * scale
     n_leaf = (400 if tier == "quick" else 4000) * scale
     per_group = 8 if tier == "quick" else 22
     if replay:
-        payload = json.loads(Path(replay).read_text())["violation"]
+        payload = json.loads(Path(replay).read_text()).get("violation") or {}
         groups = [payload["group"]] if "group" in payload else []
         leafs = [payload["leaf"]] if "leaf" in payload else []
         for g in groups:
             g["only_cmd"] = payload.get("cmd")
     else:
-        groups = corpus_groups() + gen_groups(seed, n_groups)
+        groups = corpus_groups() + grid_groups(sorted(c for c in cmds_all if c in CMD_OWNER)) + gen_groups(seed, n_groups) + ood_groups()
         for g in groups:
             g.setdefault("touched", [])
         leafs = gen_leaf(seed, n_leaf)
@@ -627,9 +670,13 @@ def run(tier: str, seed: int, replay: str | None = None) -> int:
     for g in groups:
         own_touched = set(g["touched"])
         g["cmds"] = [c for c in cmds_all if c in CMD_OWNER and CMD_OWNER[c][0] not in own_touched and (not g.get("only_cmd") or c == g["only_cmd"])]
-        if not replay and not str(g["i"]).startswith("corpus:") and len(g["cmds"]) > per_group:
+        if g.get("ood"):
+            g["cmds"] = list(g["fixed_cmds"])
+        elif g.get("fixed_cmds"):
+            g["cmds"] = [c for c in g["cmds"] if c in g["fixed_cmds"]]
+        elif not replay and not str(g["i"]).startswith("corpus:") and len(g["cmds"]) > per_group:
             g["cmds"] = sorted(rsub.sample(g["cmds"], per_group))
-        if not replay and g["cmds"] and rsub.random() < (0.25 if tier == "quick" else 0.08):
+        if not replay and g["cmds"] and rsub.random() < (0.3 if tier == "quick" else 0.12):
             g["subprocess_cmds"] = [rsub.choice(g["cmds"])]
     _t("build")
     results = pool_map(run_group, groups, chunks=1)
@@ -646,7 +693,7 @@ def run(tier: str, seed: int, replay: str | None = None) -> int:
             shards, index = [], []
             per = 6
             for s in range(0, len(groups), per):
-                chunk = [j for j in range(s, min(len(groups), s + per)) if groups[j]["cmds"]]
+                chunk = [j for j in range(s, min(len(groups), s + per)) if groups[j]["cmds"] and not groups[j].get("ood")]
                 if chunk:
                     shards.append("\n".join(f"Eval vm_compute in ({coq_group(groups[j], results[j], atabs[j], tagsets[j], groups[j]['cmds'])})." for j in chunk))
                     index.append(("g", chunk))
@@ -681,6 +728,13 @@ def run(tier: str, seed: int, replay: str | None = None) -> int:
     # ---- observable level
     cands_all = None
     for g, res, ver, atab in zip(groups, results, verdicts, atabs):
+        if g.get("ood"):
+            for cmd in g["cmds"]:
+                o = res["cmds"][cmd]
+                chk.dist("out-of-domain(C05, not part of the verdict):" + next(iter(o)))
+                if "aborted" not in o:
+                    chk.notes.append(f"out-of-domain stream: `{cmd}` under {g['pert']} did not end with 'Error during linting' / exit 2 ({str(o)[:120]}) - C05's business, not C15's")
+            continue
         names = twin_names(g)
         data = bytes.fromhex(g["data_hex"])
         cl = spec_class(names[0], data)
@@ -694,10 +748,10 @@ def run(tier: str, seed: int, replay: str | None = None) -> int:
                 chk.violation({"reason": "a JavaScript file is not analysed like the same content under a TypeScript name (documented: JavaScript is analysed with the TypeScript parser)",
                                "only_as_ts": [v for v in res["js_as_ts"] if v not in res["refs"].get("javascript", [])][:5],
                                "only_as_js": [v for v in res["refs"].get("javascript", []) if v not in res["js_as_ts"]][:5],
-                               "group": {k: v for k, v in g.items() if k not in ("cmds", "subprocess_cmds", "only_cmd")}})
+                               "group": {k: v for k, v in g.items() if k not in ("cmds", "subprocess_cmds", "only_cmd", "fixed_cmds", "ood")}})
         if res["ref_failures"]:
             chk.violation({"reason": "a rule failed internally (swallowed exception) in a reference run under a valid configuration",
-                           "failures": res["ref_failures"][:3], "group": {k: v for k, v in g.items() if k not in ("cmds", "subprocess_cmds", "only_cmd")}})
+                           "failures": res["ref_failures"][:3], "group": {k: v for k, v in g.items() if k not in ("cmds", "subprocess_cmds", "only_cmd", "fixed_cmds", "ood")}})
         for cmd in g["cmds"]:
             o = res["cmds"][cmd]
             pkg = CMD_OWNER[cmd][0]
@@ -710,7 +764,7 @@ def run(tier: str, seed: int, replay: str | None = None) -> int:
                      + ("" if g["ext"] == g["ext"].lower() else "(case variant)"))
             chk.dist("outcome:" + next(iter(o)))
             chk.dist("perturbed_sections:" + str(len(g["touched"])))
-            case = {"group": {k: v for k, v in g.items() if k not in ("cmds", "subprocess_cmds", "only_cmd")}, "cmd": cmd, "file_names": list(names),
+            case = {"group": {k: v for k, v in g.items() if k not in ("cmds", "subprocess_cmds", "only_cmd", "fixed_cmds", "ood")}, "cmd": cmd, "file_names": list(names),
                     "text_head": data[:300].decode("utf-8", "replace"), "impl": o, "detected_language": res["detected"], "spec_language": cl}
             if "error" in o:
                 chk.violation({"reason": "command failed outside the modelled outcomes", **case})
@@ -733,7 +787,7 @@ def run(tier: str, seed: int, replay: str | None = None) -> int:
             dom, spec_ok, ideal_ok, cand = bits[0], bits[1], bits[2], bits[3:]
             chk.traces_validated += 1
             if not dom:
-                chk.violation({"reason": "a rule reported on a language outside its guard in a reference run, or an unregistered rule id was observed (oracle table not well-formed)",
+                chk.violation({"reason": "a rule reported on a language outside its guard in a reference run, an unregistered rule id was observed (oracle table not well-formed), or a generated section is rejected by its config class (generator left the domain)", "sections": res["sections"],
                                "atab_keys": [list(k) for k in atab], **case})
                 continue
             if spec_ok != py_ok:
@@ -766,7 +820,7 @@ def run(tier: str, seed: int, replay: str | None = None) -> int:
 def _explained_in_python(g, res, cmd, o, cl) -> bool:
     """fallback attribution when Coq is unavailable: the two listed defect classes, recognised conservatively"""
     if "aborted" in o:
-        return any(rej for _k, rej in res["sections"])
+        return False
     names = twin_names(g)
     data = bytes.fromhex(g["data_hex"])
     if cl == "other" and py_suffix(names[0]) != "" and res["detected"] == "python" and readable(data):
